@@ -22,6 +22,30 @@ ASSUMPTIONS = ["ordinates are dyadic (k/8), thresholds small integers / halves, 
                "or compared to 1e-9", "thresholds and observations are finite or NaN (no infinities)",
                "float rounding is not modelled: exact CRPS ties in adjust_fcst_for_crps are accepted either way unless the float "
                "computation is exact (trapz, dyadic grid)"]
+MANIFEST = dict(
+    level="proof",
+    text="Kernel-checked Lean theorems about an executable model of the eight CDF tools and adjust_fcst_for_crps (for lists of "
+         "any length): the upper envelope is the running maximum and the lower the reverse running minimum of the non-NaN "
+         "ordinates with NaN positions preserved; both are non-decreasing, bracket the input, are the least monotone majorant / "
+         "greatest monotone minorant and coincide with a non-decreasing input; every fill method keeps the given ordinates, stays "
+         "in [0,1] and blanks a CDF with fewer than min_nonnan points; decreasing_cdfs flags exactly total decrease > tolerance; "
+         "propagate_nan / observed_cdf (t >= obs) / round_values (nearest multiple, ties to even) as named; the cdf_type chosen by "
+         "adjust_fcst_for_crps has the largest CRPS (so never below the original), ties prefer original then upper, unchanged "
+         "when nothing decreases. The model is tied to the code by a differential correspondence on all nine functions incl. their "
+         "ValueError guards, and the decreasing-sum kernel by the AST translator; an independent oracle checks the property itself "
+         "(position-wise Lean Spec for envelopes / fills / flags, bracket and minimality relations, CRPS(adjusted) >= CRPS(original) "
+         "and = max over the three candidates with the real crps_cdf).",
+    note="Trusted: Lean kernel; propext/Classical.choice/Quot.sound; SV.Fl (IEEE minus rounding/overflow/signed zero); xarray "
+         "interpolate_na / ffill / bfill / sortby / idxmax / shift / sum(min_count) are modelled by their documented meaning and "
+         "compared, not verified; py2lean for the decreasing kernel. Not proved in Lean (compared only): fill values equal the "
+         "knot-function Spec (linear chord / step / forward / backward) and the equality of the model envelopes with the index-wise "
+         "Spec.upper / Spec.lower used by the oracle; the whole-array adjust pipeline (the theorem is about the idxmax selection). "
+         "Round_values is proved for precisions whose multiples survive the final 7-decimal rounding (all dyadic precisions >= 2^-7); "
+         "other precisions are float-rounding questions outside the model. Exact CRPS ties in adjust are accepted either way unless "
+         "the float computation is exact (trapz on a dyadic grid). Inputs are built C-contiguous (bottleneck 1.6 misreads "
+         "transposed views with size-1 dims). No infinities, no dask (F15 belongs to C04).",
+    technique="Lean 4 theorems over a hand-written executable model + differential correspondence + independent Lean-Spec / relational oracle",
+    design="6/C17")
 RULE = ("random CDF arrays (length 1-6, decreasing runs, plateaus, NaN, 0-2 extra dims in any order) per tool, plus the exhaustive "
         "enumeration of all CDFs of length <= 4 over {0,1/4,1/2,1,NaN} (thorough); distinct = distinct (tool, arguments); "
         "non-trivial = at least one non-NaN ordinate and not in the malformed stream")
